@@ -469,14 +469,13 @@ impl Subject for GasSubject {
     }
 }
 
-fn c34(cli: &Cli) {
-    let thorough = cli.tier == Tier::Thorough;
+fn c34_subjects(full: bool, rich: bool) -> Vec<GasSubject> {
     let mut subjects = vec![];
     let factors = [1u64, 100];
     let exec_pcts = [0u16, 10];
     let da_pcts = [0u16, 10];
     let bounds = [(0u64, u64::MAX), (5, 20), (10, 5)];
-    let pds: Vec<(i64, i64)> = if thorough { vec![(0, 0), (1, 1), (1, 10), (10, 1), (10, 10), (0, 10), (10, 0), (-1, 1), (1, 0)] } else { vec![(0, 0), (1, 1), (10, 1)] };
+    let pds: Vec<(i64, i64)> = if full { vec![(0, 0), (1, 1), (1, 10), (10, 1), (10, 10), (0, 10), (10, 0), (-1, 1), (1, 0)] } else { vec![(0, 0), (1, 1), (10, 1)] };
     for &f in &factors {
         for &ep in &exec_pcts {
             for &dp in &da_pcts {
@@ -484,13 +483,13 @@ fn c34(cli: &Cli) {
                     for &(p, d) in &pds {
                         for act in [false, true] {
                             for min_exec in [0u64, 100] {
-                                if !thorough && min_exec == 0 && act {
+                                if !full && min_exec == 0 && act {
                                     continue;
                                 }
                                 subjects.push(GasSubject {
-                                    name: format!("updater[f={f},exec%={ep},da%={dp},da=[{lo},{hi}],pd=({p},{d}),activity={act},min_exec={min_exec}]"),
+                                    name: format!("updater[f={f},exec%={ep},da%={dp},da=[{lo},{hi}],pd=({p},{d}),activity={act},min_exec={min_exec}{}]", if rich { ",rich-alphabet" } else { "" }),
                                     init: base_updater(f, min_exec, ep, lo, hi, dp, p, d, act),
-                                    thorough,
+                                    thorough: rich,
                                 });
                             }
                         }
@@ -499,9 +498,19 @@ fn c34(cli: &Cli) {
             }
         }
     }
+    subjects
+}
+
+fn c34(cli: &Cli) {
+    // quick: basic alphabet, 216 configurations, depth 5.
+    // thorough: the same at depth 6, plus the rich alphabet over all 864 configurations at depth 4.
+    let plans: Vec<(Vec<GasSubject>, usize, u32)> = match cli.tier {
+        Tier::Quick => vec![(c34_subjects(false, false), 5, 1)],
+        Tier::Thorough => vec![(c34_subjects(false, false), 6, 2), (c34_subjects(true, true), 4, 2)],
+    };
     if let Some(path) = &cli.replay {
         let rf = load_replay(path);
-        for s in &subjects {
+        for s in c34_subjects(true, false).iter().chain(c34_subjects(true, true).iter()) {
             if s.name() == rf.subject {
                 replay_and_exit(s, &rf);
             }
@@ -509,12 +518,12 @@ fn c34(cli: &Cli) {
         machinery_failure("replay: unknown subject");
     }
     let mut run = Run::new(cli, "model_checking");
-    let depth = cli.tier.pick(5, 6);
-    let per_cap = cli.tier.pick(40u64, 1200) / 4;
-    let mut total = Report { subject: format!("{} updater configurations (merged)", subjects.len()), exhaustive: true, max_depth_bound: depth, ..Default::default() };
+    let n_subjects: usize = plans.iter().map(|p| p.0.len()).sum();
+    let per_cap = cli.tier.pick(10u64, 40);
+    let mut total = Report { subject: format!("{} updater configurations (merged)", n_subjects), exhaustive: true, max_depth_bound: plans.iter().map(|p| p.1).max().unwrap_or(0), ..Default::default() };
     let mut shown = 0;
-    for s in &subjects {
-        let b = Bounds::new(depth, cli).deviations(cli.tier.pick(1, 2)).wall(per_cap);
+    for (s, depth, devs) in plans.iter().flat_map(|(ss, d, v)| ss.iter().map(move |s| (s, *d, *v))) {
+        let b = Bounds::new(depth, cli).deviations(devs).wall(per_cap);
         let r = explore(s, &b);
         if !r.violations.is_empty() || !r.exhaustive || shown < 2 {
             shown += 1;
@@ -542,7 +551,7 @@ fn c34(cli: &Cli) {
     if total.transitions > 0 {
         run.add(total);
     }
-    run.note("configurations", json!(subjects.len()));
+    run.note("configurations", json!(n_subjects));
     run.assume("rate bound is checked per update call on the scaled prices (exact integer arithmetic); clamping to min/max is exempt as the statement says");
     run.assume("DA record updates with zero recorded bytes fail after partially updating the cost totals; the statement only covers rejected non-consecutive L2 heights, so this is not checked");
     run.finish();
